@@ -178,3 +178,15 @@ package util
 //@ func ProcessDependencies
 //@   props C11
 //@   requires [caller=a-validated-chart-is-assumed] c != nil && c.Metadata != nil && (forall j int :: 0 <= j && j < len(c.Metadata.Dependencies) ==> c.Metadata.Dependencies[j] != nil)
+
+// ---- C20 / C11: every dependency of the chart gets a table under its name before its values are
+// coalesced (what ValidateAgainstSchema and the renderer rely on when they read values[<subchart>] as a
+// table); a value that is present and not a table is an error, never silently dropped
+//@ func istable
+//@   props C20
+//@   ensures result == typeis(v, map[string]interface{})
+
+//@ func coalesceDeps
+//@   props C20
+//@   requires chrt != nil && dest != nil
+//@   assert [every-subchart-has-a-table-when-it-is-coalesced] at "if dv, ok := dest[subchart.Name()]; ok {" ok && typeis(dv, map[string]interface{})
